@@ -7,8 +7,9 @@ Local Open Scope N_scope.
 
 (* every encoding the strict decoder of the format accepts - any admissible size and offset widths, with or
    without index, cache bits, CRC, stored hashes, one or several roots, any valid cell order, any of the three
-   magic prefixes - is parsed to exactly the roots it denotes (provided its cells can be constructed at all) *)
-Theorem C05_accepts : forall d roots cs,
+   magic prefixes - is parsed to exactly the roots it denotes (provided its cells can be constructed at all);
+   the input is a byte string (every element < 256) *)
+Theorem C05_accepts : forall d roots cs, bytes_ok d ->
   s_all_cells d = Some cs -> s_decode d = Some roots ->
   Forall (fun t => is_ok (build sha256 t) = true) cs ->
   exists ks, deserialize sha256 d = Ok ks /\ map k_tree ks = roots.
